@@ -45,17 +45,17 @@ Section C02.
   Proof. intros H. apply roots_sub in H. cbn [roots0_of] in H. apply (up_dn G r_down ND) in H.
     apply down_sub_all. exact H. Qed.
 
-  Theorem downgrade_plan_result target branch Cur :
-    C02_holds (G, target, branch, Cur) (downgrade_plan G target branch Cur).
-  Proof. unfold downgrade_plan, collect_downgrade.
+  Theorem downgrade_plan_result rq target branch Cur : ref_agrees02 G Cur rq target branch = true ->
+    C02_holds (G, rq, target, branch, Cur) (downgrade_plan G target branch Cur).
+  Proof. intros HREF. unfold downgrade_plan, collect_downgrade.
     set (R := roots_of G target branch).
     assert (forall z, In z (interN (reach_or_nil (all_nextrev G) G R) (reach_or_nil (norm_down G) G Cur)) <-> DescOf G R z /\ AncOf G Cur z) as Hdg.
     { intros z. rewrite interN_In. fold (descs G R). rewrite (proj2 (descs_spec R)), (proj2 (active_spec Cur)). tauto. }
     set (dg := interN (reach_or_nil (all_nextrev G) G R) (reach_or_nil (norm_down G) G Cur)) in *.
     assert (NoDup dg) as NDdg by (apply NoDup_interN; apply (proj1 (descs_spec R))).
     assert (forall res, (res = POk (dg, Cur) -> (dg = [] -> forall t, target = Some t -> In t Cur) ->
-       C02_holds (G, target, branch, Cur) (match res with PErr e => PErr e | POk (d, heads) => topological_sort G d heads end))) as Hok.
-    { intros res -> Hempty. cbn [C02_holds]. fold R.
+       C02_holds (G, rq, target, branch, Cur) (match res with PErr e => PErr e | POk (d, heads) => topological_sort G d heads end))) as Hok.
+    { intros res -> Hempty. cbn [C02_holds]. fold R. split; [exact HREF|].
       destruct (topological_sort_correct G WF AC NOK dg Cur NDdg) as [o [Eo [NDo [Hino Hord]]]].
       { intros x y p Hx Hy A1 A2. apply Hdg in Hx. apply Hdg in Hy. apply Hdg. split.
         - destruct (proj1 Hy) as [r [Hr Ar]]. exists r. split; auto. eapply path_trans; eauto.
@@ -78,28 +78,28 @@ Section C02.
         apply AC. exists rt, t. split; auto. eapply path_trans; eauto. }
       { intros Ep t Et. apply Hempty; auto. destruct dg as [|d dg']; auto. exfalso.
         assert (In d o) as Hd by (apply Hino; left; auto). rewrite Ep in Hd. destruct Hd. } }
-    assert (C02_holds (G, target, branch, Cur)
+    assert (C02_holds (G, rq, target, branch, Cur)
               (match (match target, dg with
                       | Some t, [] => if memN t Cur then POk (dg, Cur) else PErr PERange
                       | _, _ => POk (dg, Cur) end) with
                | PErr e => PErr e | POk (d, heads) => topological_sort G d heads end)) as Htail.
-    { destruct target as [t|].
+    { destruct target as [t0|].
       - destruct dg as [|d dg'] eqn:Ed.
-        + destruct (memN_reflect t Cur) as [Hin|Hnin].
+        + destruct (memN_reflect t0 Cur) as [Hin|Hnin].
           * apply (Hok (POk ([], Cur)) eq_refl). intros _ t' Et. inversion Et; subst; auto.
-          * cbn [C02_holds]. exists t. split; auto. split; auto. intros r Hr. apply Hdg in Hr. destruct Hr.
+          * cbn [C02_holds]. split; [exact HREF|]. exists t0. split; auto. split; auto. intros r Hr. apply Hdg in Hr. destruct Hr.
         + apply (Hok (POk (d :: dg', Cur)) eq_refl). discriminate.
-      - apply (Hok (POk (dg, Cur)) eq_refl). intros _ t Et. discriminate. }
+      - apply (Hok (POk (dg, Cur)) eq_refl). intros _ t1 Et. discriminate. }
     destruct branch as [b|]; [|exact Htail].
     destruct (roots0_of G target) as [|a [|c l]] eqn:E0; try exact Htail.
     clear Hok Hdg NDdg. subst dg. subst R. revert Htail.
     destruct (roots_of G target (Some b)) as [|x xs] eqn:ER; intros Htail; [|exact Htail].
-    cbn [C02_holds]. rewrite ER. split; auto. discriminate.
+    cbn [C02_holds]. rewrite ER. split; [exact HREF|]. split; auto. discriminate.
   Qed.
 
-  Theorem decider_sound target branch Cur out :
-    check_C02 (G, target, branch, Cur) out = true -> C02_holds (G, target, branch, Cur) out.
-  Proof. unfold check_C02, C02_holds. set (R := roots_of G target branch).
+  Theorem decider_sound rq target branch Cur out :
+    check_C02 (G, rq, target, branch, Cur) out = true -> C02_holds (G, rq, target, branch, Cur) out.
+  Proof. unfold check_C02, C02_holds. set (R := roots_of G target branch). rewrite andb_true_iff. intros [HREF H]. split; [exact HREF|]. revert H.
     destruct (descs_spec R) as [_ HD]. destruct (ancs_spec G WF Cur) as [_ HA].
     assert (forall z, In z (interN (descs G R) (ancs G Cur)) <-> DescOf G R z /\ AncOf G Cur z) as Hexp.
     { intros z. rewrite interN_In, HD, HA. tauto. }
